@@ -464,3 +464,64 @@ def stalefact_programs():
                 "\tif %s {" % g, "\t\tyield? \"$wait\"", "\t\t" + u, "\t}", "\tthis.last = v", "}", ""]
         out.append(("stalefact_%s_field_yield" % sname, _SF_HEAD + "\n" + "\n".join(body)))
     return out
+
+
+# ------------------------------------------------------------------ liveness grid (C05)
+# internal/cgen/liveness.go decides per local whether it is saved across suspensions.  A wrong "no" is invisible in a
+# one-shot run; C05's cgen-shaped model reads the exported resumable sets and reports the read of an unsaved local.
+# The grid puts one local through every short sequence of the analysis' events - W (write), R (read), P (suspension
+# point that does not mention it), Q (suspension point whose argument mentions it) - inside every control-flow shape the
+# analysis treats differently: straight line, counted loop, while-true with break / continue / return / no exit, nested
+# loops, if/else joins.  (The shape "while true without exit" is the one whose locals fc008b2 repaired.)
+_LV_HEAD = "pub status \"#bad\"\n\npub struct foo?(\n\tn : base.u8,\n)\n\npub func foo.get_n() base.u8 {\n\treturn this.n\n}\n"
+_LV_EVENTS = {
+    "W": "x = c ~mod+ 7",
+    "R": "this.n = this.n ~mod+ x",
+    "P": "c = args.src.read_u8?()",
+    "Q": "args.dst.write_u8?(a: x)",
+    "-": None,
+}
+# shapes: lists of lines; {0}..{3} are the four slots
+_LV_SHAPES = [
+    ("line", ["{0}", "{1}", "{2}", "{3}"]),
+    ("count", ["while k < 2 {", "\tk += 1", "\t{0}", "\t{1}", "\t{2}", "}", "{3}"]),
+    ("wtbreak", ["while true {", "\t{0}", "\t{1}", "\tif c == 0 {", "\t\tbreak", "\t}", "\t{2}", "}", "{3}"]),
+    ("wtcont", ["while true {", "\t{0}", "\t{1}", "\tif c == 1 {", "\t\tcontinue", "\t}", "\t{2}", "\t{3}", "}"]),
+    ("wtret", ["while true {", "\t{0}", "\tif c == 0 {", "\t\treturn ok", "\t}", "\t{1}", "\t{2}", "\t{3}", "}"]),
+    ("wtnone", ["while true {", "\t{0}", "\t{1}", "\t{2}", "\t{3}", "}"]),
+    ("nestbreak", ["while k < 2 {", "\tk += 1", "\twhile true {", "\t\t{0}", "\t\t{1}", "\t\tif c == 0 {", "\t\t\tbreak", "\t\t}", "\t\t{2}", "\t}", "\t{3}", "}"]),
+    ("nestouter", ["while.outer k < 2 {", "\tk += 1", "\twhile true {{", "\t\t{0}", "\t\t{1}", "\t\tif c == 0 {", "\t\t\tcontinue.outer", "\t\t}", "\t\t{2}", "\t\t{3}", "\t}}", "}.outer"]),
+    ("ifelse", ["if c == 0 {", "\t{0}", "\t{1}", "} else {", "\t{2}", "}", "{3}"]),
+    ("ifinloop", ["while k < 2 {", "\tk += 1", "\tif c == 0 {", "\t\t{0}", "\t} else {", "\t\t{1}", "\t}", "\t{2}", "}", "{3}"]),
+]
+
+
+def livegrid_programs(rng, per_shape=None):
+    """[(name, text)]: one package per (shape, chunk of 12 slot fillings).  per_shape=None: every filling with at least one
+    suspension point and one read (the only ones on which the analysis can be wrong); else that many per shape (seeded)."""
+    import itertools, re
+    fills = [f for f in itertools.product("WRPQ-", repeat=4) if ("P" in f or "Q" in f) and ("R" in f or "Q" in f)]
+    out = []
+    for sname, lines in _LV_SHAPES:
+        fs = list(fills)
+        if per_shape is not None:
+            rng.shuffle(fs)
+            fs = fs[:per_shape]
+        for ci in range(0, len(fs), 12):
+            L = [_LV_HEAD]
+            for fi, f in enumerate(fs[ci:ci + 12]):
+                body = []
+                for ln in lines:
+                    ln2 = ln.replace("{{", "{").replace("}}", "}")
+                    m = re.search(r"\{(\d)\}", ln)
+                    if m:
+                        ev = _LV_EVENTS[f[int(m.group(1))]]
+                        if ev is None:
+                            continue
+                        ln2 = ln[:m.start()].replace("{{", "{") + ev
+                    body.append("\t" + ln2)
+                L += ["pub func foo.f%d?(dst: base.io_writer, src: base.io_reader) {" % fi, "\tvar x : base.u8", "\tvar c : base.u8", "\tvar k : base.u8", "",
+                      "\tc = args.src.read_u8?()", "\tx = c ~mod+ 1"] + body + ["\tthis.n = this.n ~mod+ c", "}", "",
+                      "// slots: " + "".join(f), ""]
+            out.append(("livegrid_%s_%d" % (sname, ci // 12), "\n".join(L)))
+    return out
